@@ -4,7 +4,7 @@ from ..suites import convert as S
 
 ID = "C17"
 SUITE = "convert"
-LEAN_TARGETS = ["TypedpyModel.Props.C17", "TypedpyModel.Audit.C17"]
+LEAN_TARGETS = ["TypedpyModel.Props.C17", "TypedpyModel.Props.C17Deser", "TypedpyModel.Audit.C17"]
 AUDIT = "C17"
 THEOREMS = [
     "Typedpy.C17.convert_version", "Typedpy.C17.convert_version_max", "Typedpy.C17.convert_version_keyed",
@@ -20,33 +20,63 @@ THEOREMS = [
     "Typedpy.C17.fixed_versionless_example", "Typedpy.C17.fixed_clobber_example",
     "Typedpy.C17.fixed_compose_versionless_example", "Typedpy.C17.fixed_compose_clobber_example",
     "Typedpy.C17.fixed_deser_no_attribute_example", "Typedpy.C17.beq_sound", "Typedpy.C17.laws_example",
+    "Typedpy.C17.step_contract_holds", "Typedpy.C17.step_contract_top_holds", "Typedpy.C17.convert_steps_contract",
+    "Typedpy.C17.step_contract_sensitive_example", "Typedpy.C17.nonpositive_version_accepted_example",
+    "Typedpy.C17.nonpositive_rejected_refuted", "Typedpy.C17.convert_nonpositive_characterised",
+    "Typedpy.C17.sites_doc_const_copy_today", "Typedpy.C17.no_doc_writes_today",
+    "Typedpy.C17.convert_input_intact", "Typedpy.C17.convert_input_intact_today",
+    "Typedpy.C17.step_input_intact", "Typedpy.C17.convert_result_disjoint", "Typedpy.C17.heap_examples",
+    "Typedpy.C17.versioned_deserialize_whole_path", "Typedpy.C17.versioned_deserialize_is_plain",
+    "Typedpy.C17.whole_path_example", "Typedpy.C17.convert_fn_error_propagates", "Typedpy.C17.convert_fn_result",
+    "Typedpy.C17.versioned_deserialize_trusted_whole_path", "Typedpy.C17.convert_nonint_version_raises",
 ]
 RULE = ("histories of 0..5 (thorough 0..8) mappings over top-level keys a..e (+ rarely `version`) with Constant, Deleted, "
         "moves (plain and dotted paths, degenerate paths), nested `._mapper` entries (depth <= 2) over sub-documents and "
-        "lists of sub-documents, FunctionCall from a fixed family of 6 pure functions (args None / [] / matching / wrong "
-        "arity); documents with role-typed values (scalars, sub-documents, lists of sub-documents incl. None / scalar "
-        "elements); start versions: 78% in 1..n+1, 9% no version key, 4% beyond latest, 5% <= 0, 4% non-int; ALL split "
+        "lists of sub-documents, FunctionCall with user functions drawn from 15 Python functions (total / partial / raising "
+        "ValueError, KeyError, ZeroDivisionError, RuntimeError / float-producing / container functions / seeded-hash 'random' "
+        "functions of any arity; args None / [] / matching / wrong arity) — the Lean model gets each function as the table of "
+        "calls observed on the real code plus the calls the step contract asks about; documents with role-typed values "
+        "(scalars incl. floats, sub-documents, lists of sub-documents incl. None / scalar elements); start versions: 78% in "
+        "1..n+1, 9% no version key, 4% beyond latest, 5% <= 0, 4% non-int (str, None, bool, list, dict, float); ALL split "
         "points 0..n (+ occasionally n+2); per case one Versioned class (fields Anything / Integer / String / Sub / "
         "Array[Sub]; in half of the cases ~45% of the keys a..e are NOT fields, so histories move / delete / add non-field "
         "keys; nested class with or without the key `a` declared), `_additional_properties` unset / True / False, "
-        "keep_undefined default / True / False, with and without `_versions_mapping` when n == 0, regular and "
-        "direct_trusted_mapping deserialization; a case is non-trivial if at least one mapping is non-empty; distinct by sha256 of the case")
+        "keep_undefined default / True / False, with and without `_versions_mapping` when n == 0, regular (80%) and "
+        "direct_trusted_mapping deserialization (20%; 70% of those with all-typed fields so that the trusted shortcut is "
+        "really taken), the real instance / exception compared with the whole-path Lean model in both; a case is non-trivial if at "
+        "least one mapping is non-empty; distinct by sha256 of the case")
 ASSUMPTIONS = [
-    "documents are JSON values (None/bool/int/str/list/dict with str keys); no floats",
-    "FunctionCall functions are the 6 pure functions of harness/suites/convert.py, implemented identically in Lean (applyFn)",
-    "keys of Deleted / move / FunctionCall entries do not end in '._mapper'; values of '._mapper' keys are dicts",
-    "law checks apply to every history (also with entries for `version`) and start versions v >= 1 (a document without `version` counts as version 1, as convert_dict treats it); "
-    "v <= 0 and non-int versions are only corresponded (Python slice semantics are modelled)",
+    "documents are JSON values (None/bool/int/str/finite float/list/dict with str keys); floats are exact ratios, no NaN/inf/-0.0",
+    "a FunctionCall function is a pure function of its arguments' values (it may raise; any arity); the theorems quantify over "
+    "ALL such functions (`UserFn := List Json -> R Json`); per case the driver uses the observed call table (a call the table "
+    "lacks is reported as a disagreement)",
+    "a mapping is a Python dict: keys unique per nesting level (`wfMapping`, checked per case); keys of Deleted / move / "
+    "FunctionCall entries do not end in '._mapper'; values of '._mapper' keys are dicts",
+    "law checks apply to every history (also with entries for `version`) and start versions v >= 1 (a document without `version` "
+    "counts as version 1, as convert_dict treats it); int versions v <= 0 are a known-finding region (accepted instead of "
+    "rejected); non-int versions (bool, str, float, ...) are only corresponded (Python slice / arithmetic semantics are modelled)",
     "key order of documents is modelled (insertion order) but compared order-insensitively, like Python ==",
+    "heap-level theorems: user functions obey the capability discipline FnOk (allocate only; return an atom, something new or "
+    "something reachable from the arguments); `copy.deepcopy` is a tree copy (internal sharing is not preserved — irrelevant to "
+    "separation from the input)",
 ]
 TRUSTED_EXTRA = [
-    "C17: wire codec of lean/TypedpyModel/Drive/Convert.lean (objects as ordered pair lists, `._mapper` suffix stripped, "
-    "`str.split('.')` modelled by Lean `String.splitOn`), harness/suites/convert.py (object builders, deep snapshots, "
-    "container-identity alias probe, instance dump)",
-    "C17: the remainder of deserialize_structure_internal after the Versioned prologue is abstracted as a function of "
-    "input_dict (theorem versioned_deser_equiv quantifies over it); tied to the code by comparing the Versioned class on the "
-    "document with a non-Versioned twin class on the converted document",
+    "C17: wire codec of lean/TypedpyModel/Drive/Convert.lean (objects as ordered pair lists, floats as ratios, `._mapper` suffix "
+    "stripped, `str.split('.')` modelled by Lean `String.splitOn`, user functions as call tables looked up up to Python ==), "
+    "harness/suites/convert.py (object builders, call recorder, deep snapshots, container-identity alias probe, instance dump)",
+    "C17: extract/aliasing_c17.py (AST reading of the copy sites and of writes through caller objects in versioned_mapping.py "
+    "-> Generated/AliasingC17.lean); the heap-level model Sem/AliasC17.lean is hand-written, tied to the source through that "
+    "table and run per case through the encoding of Drive/ConvertHeap.lean (JSON values as cells, scalars as interned atoms)",
+    "C17: the whole-path model Sem/ConvertDeser.lean reuses Sem/Deser.lean (C05/C06) for the remainder of deserialization and "
+    "Sem/Trusted.lean (C10) for direct_trusted_mapping (garbage documents that model declares outside its domain, "
+    "`outside-model:*`, are tied by the twin-class comparison only)",
 ]
+
+
+def pre_build():
+    # copy sites / parameter writes of versioned_mapping.py, read off the source under test (heap-level theorems)
+    from extract import aliasing_c17
+    aliasing_c17.generate()
 
 
 def cases(rng, tier):
@@ -84,6 +114,36 @@ def judge(case, impl, model):
     region = None
     history = _short(case["ms"], 400)
 
+    if model.get("wfMappings") is False:
+        msg = msg or "harness: a generated mapping is not a Python dict (duplicate key) — the step-contract theorems do not cover it"
+
+    # ---- the heap-level model (Sem/AliasC17.lean, copy sites as read off the source under test) run on this case
+    hp = model.get("heap")
+    if hp is not None:
+        if not hp.get("agrees"):
+            msg = msg or (f"heap-level model and value-level model differ: heap {'raised' if hp.get('raised') else _short(hp.get('result'))} "
+                          f"value-level {_short(model.get('full'))}")
+        predicted = (not hp.get("inputIntact")) or bool(hp.get("shared"))
+        observed = bool(impl["mutated"]) or bool(impl["alias"]) or bool(impl.get("full_is_input"))
+        if predicted and not observed:
+            msg = msg or (f"heap-level model with the copy sites of the source predicts that convert_dict touches / shares the "
+                          f"caller's objects (intact={hp.get('inputIntact')}, shared={hp.get('shared')}) but snapshots and "
+                          f"alias probe show nothing")
+
+    # ---- start versions below 1 (the documentation has versions start at 1; `version` is a PositiveInt field):
+    # convert_dict slices the history with a negative index instead of rejecting the document
+    if int_version and ver < 1:
+        if "ok" in impl["full"]:
+            fails.append(("invalid-version-accepted:convert_dict-nonpositive-start-version",
+                          f"convert_dict on a document with version {ver} (versions start at 1) applied "
+                          f"versions_mapping[{ver - 1}:] and returned {_short(impl['full'])}: doc={_short(doc)} history={history}"))
+        d_old = impl.get("deser_old")
+        if d_old is not None and "ok" in d_old:
+            fails.append(("invalid-version-accepted:deserialize-nonpositive-start-version",
+                          f"Deserializer(V).deserialize of a document with version {ver} returned an instance "
+                          f"{_short(d_old)} (version: PositiveInt is never validated, Versioned.__init__ overwrites it): "
+                          f"doc={_short(doc)} history={history}"))
+
     # ---- inputs intact (applies to every case, whatever the start version)
     for what, site, extra in impl["mutated"]:
         fails.append((f"mutated:{what}", f"{site} modified its {what}: {extra} history={history} doc={_short(doc)}"))
@@ -98,6 +158,13 @@ def judge(case, impl, model):
                           f"history={history} doc={_short(doc)}"))
     if impl.get("full_is_input"):
         fails.append(("live-state:input-document-returned", f"convert_dict returned the input object itself: doc={_short(doc)}"))
+
+    # ---- an exception raised by a user function propagates (theorem convert_fn_error_propagates)
+    if impl.get("swallowed"):
+        name, args, exc = impl["swallowed"]
+        fails.append(("function-exception-swallowed:convert_dict",
+                      f"the user function {name}({_short(args, 120)}) raised {exc} during convert_dict, which nevertheless "
+                      f"returned {_short(impl['full'])}: doc={_short(doc)} history={history}"))
 
     # ---- documented single-step contract (Spec `stepViolations`, evaluated by the Lean driver on the real states)
     for k, v in enumerate(model.get("modelSteps") or []):
